@@ -3,12 +3,14 @@
 answers are evaluated inside Coq with vm_compute, and the two answers are compared.  This takes extraction, the
 OCaml compiler and the driver's glue out of the trusted base for the requests it covers.
 
-  tools/vmroute.py <C13|C14|C18> [max_cases]      exit 0 = all agree, 1 = a difference (printed), 2 = could not run
+  tools/vmroute.py <C13|C14|C15|C18|C19> [max_cases]      exit 0 = all agree, 1 = a difference (printed), 2 = could not run
 
 Covered request kinds (the codecs, whose results are plain lists of numbers):
   C14  enc <set> <bytes>   -> encode, pe_display          dec <bytes> -> decode, utf8_lossy (decode)
   C13  enc <cfg> <scalars> -> encode                      dec <cfg> <bytes> -> decode
+  C15  parse <bytes>       -> parse (pairs, flattened)    byteser <bytes> -> bser      serpairs n:v ... -> serialize_pairs
   C18  dec <bytes>         -> decode_to_vec (ok part)     spec <bytes> -> forgiving_base64_decode
+  C19  parse <s> <q>       -> Mime parse (outcome kind; type, subtype, parameters flattened; Display; get_parameter q)
 Requests come from corpus/<Cxx>/cases.txt (lines of those kinds) plus a fixed built-in list, so the run is
 deterministic.  Called by tools/orchestrate.py in the thorough tier; a difference is reported as a broken tie.
 """
@@ -21,11 +23,18 @@ ROOT = os.path.dirname(os.path.dirname(os.path.abspath(__file__)))
 COQ = os.path.join(ROOT, "coq")
 OUT = os.path.join(ROOT, "build", "vmroute")
 
-DRIVER = {"C13": "c13_driver", "C14": "c14_driver", "C18": "c18_driver"}
+DRIVER = {"C13": "c13_driver", "C14": "c14_driver", "C15": "c15_driver", "C18": "c18_driver", "C19": "c19_driver"}
 IMPORTS = {
     "C13": "From RU Require Import Base.Prelude Base.Utf8 Base.U32_c13 Gen.Tables Model.Punycode.",
     "C14": "From RU Require Import Base.Prelude Base.Utf8 Model.AsciiSet Gen.Tables Model.PercentEncoding.",
+    "C15": "From RU Require Import Base.Prelude Base.Utf8 Base.Outcome_c15 Model.AsciiSet Gen.Tables Model.PercentEncoding Model.FormUrlencoded.\n"
+           "Definition flat_pairs (l : list (list N * list N)) : list N :=\n"
+           "  flat_map (fun p => N.of_nat (length (fst p)) :: fst p ++ N.of_nat (length (snd p)) :: snd p) l.",
     "C18": "From RU Require Import Base.Prelude Gen.Tables Model.Base64 Spec.Infra.",
+    "C19": "From RU Require Import Base.Prelude Base.Utf8 Gen.Tables Model.Mime.\n"
+           "Definition flat_mime (m : mime) : list N :=\n"
+           "  N.of_nat (length (m_type m)) :: m_type m ++ N.of_nat (length (m_subtype m)) :: m_subtype m ++\n"
+           "  flat_map (fun p => N.of_nat (length (fst p)) :: fst p ++ N.of_nat (length (snd p)) :: snd p) (m_params m).",
 }
 
 
@@ -53,6 +62,21 @@ def builtin(prop):
         for p in ["", "abc-", "bcher-kva", "fiq228c", "a-b-", "99999999", "zzzzzzzz", "Mnchen-Ost-9db", "-", "--", "a"]:
             for cfg in "01":
                 r.append("dec %s %s" % (cfg, hexl(t(p))))
+        return r
+    if prop == "C15":
+        r = []
+        for p in ["", "a=b", "a=b&c=d", "&&a", "a+b=%41%zz+", "=", "a==b&=c", "caf%C3%A9=%ff+x", "a&b=&=c&", "x=1;y=2", "\u00e9=\U0001f600"]:
+            r.append("parse %s" % hexl(t(p)))
+            r.append("byteser %s" % hexl(t(p)))
+        r.append("serpairs %s:%s %s:%s" % (hexl(t("foo")), hexl(t("bar & baz")), hexl(t("saison")), hexl(t("\u00c9t\u00e9+hiver"))))
+        r.append("serpairs -:-")
+        r.append("serpairs %s:- -:%s" % (hexl(t("*-._~")), hexl(t(" \n%"))))
+        return r
+    if prop == "C19":
+        r = []
+        for p in ["", "text/plain", "text/plain;charset=utf-8", "a/b;x=\"a;\\\";c\"", " Text/HTML ; Charset=\"UTF-8\" ", "a/b;x=1;x=2;;y", "a/b;x=\"a\\", "/b", "a/", "a/b/c",
+                  "a/b;=1;x", "a/b;x=\u00e9", "a b/c", "a/b;x=\"\"", "a/b;x=a b"]:
+            r.append("parse %s %s" % (hexl([ord(c) for c in p]), hexl(t("x"))))
         return r
     if prop == "C18":
         r = []
@@ -85,6 +109,27 @@ def generated(prop, n=300):
             else:
                 al = [0x61, 0x7a, 0x41, 0x30, 0x39, 0x2d, 0x21, 0x6b, 0x80]
                 r.append("dec %d %s" % (rnd(2), hexl([al[rnd(len(al))] for _ in range(ln)])))
+        elif prop == "C19":
+            al = [0x61, 0x2f, 0x3b, 0x3d, 0x22, 0x5c, 0x20, 0x09, 0x78, 0x41, 0x31, 0x2c, 0xe9, 0x100, 0x7f, 0x0a]
+            b = [al[rnd(len(al))] for _ in range(ln + rnd(10))]
+            if rnd(2):
+                b = [0x61, 0x2f, 0x62, 0x3b] + b
+            r.append("parse %s 78" % hexl(b))
+        elif prop == "C15":
+            al = [0x26, 0x3d, 0x2b, 0x25, 0x34, 0x31, 0x61, 0x7a, 0x20, 0x2a, 0x2d, 0x2e, 0x5f, 0x7e, 0xc3, 0xa9, 0xff, 0x00, 0x3b]
+            b = [al[rnd(len(al))] for _ in range(ln)]
+            k = rnd(3)
+            if k == 0:
+                r.append("parse %s" % hexl(b))
+            elif k == 1:
+                r.append("byteser %s" % hexl(b))
+            else:
+                # serialize_pairs takes &str pairs: use ASCII letters of the alphabet only
+                a2 = [x for x in al if x < 0x80]
+                ps = []
+                for _ in range(rnd(4)):
+                    ps.append("%s:%s" % (hexl([a2[rnd(len(a2))] for _ in range(rnd(5))]), hexl([a2[rnd(len(a2))] for _ in range(rnd(5))])))
+                r.append("serpairs " + " ".join(ps) if ps else "parse %s" % hexl(b))
         else:
             al = [0x41, 0x5a, 0x61, 0x7a, 0x30, 0x39, 0x2b, 0x2f, 0x3d, 0x20, 0x0a, 0x0c, 0x2d, 0x80]
             b = [al[rnd(len(al))] for _ in range(ln)]
@@ -124,6 +169,75 @@ def terms(prop, w):
         def extp(f):
             return ("some", [1] if f[0] == "PANIC" else [])
         return [(fn, term, ext), (fn + "-panic", pterm, extp)]
+    if prop == "C15" and w[0] == "parse" and len(w) == 2:
+        b = coq_list(parse_l(w[1]))
+
+        def ext(f):
+            # second field: the into_owned pairs  n=v|n=v, "none" for no pair, FUEL
+            x = f[1]
+            if x == "FUEL":
+                return ("none", None)
+            if x == "none":
+                return ("some", [])
+            out = []
+            for pr in x.split("|"):
+                n, v = pr.split("=")
+                n, v = parse_l(n), parse_l(v)
+                out += [len(n)] + n + [len(v)] + v
+            return ("some", out)
+        return [("parse", "match parse %s with Some l => Some (flat_pairs l) | None => None end" % b, ext)]
+    if prop == "C15" and w[0] == "byteser" and len(w) == 2:
+        b = coq_list(parse_l(w[1]))
+        return [("bser", "Some (bser %s)" % b, lambda f: ("some", parse_l(f[-1])) if not f[0].startswith(("PANIC", "FUEL")) else ("none", None))]
+    if prop == "C15" and w[0] == "serpairs" and len(w) >= 2:
+        ps = []
+        for x in w[1:]:
+            n, v = x.split(":")
+            ps.append("(%s, %s)" % (coq_list(parse_l(n)), coq_list(parse_l(v))))
+        term = "match serialize_pairs [%s] with Ok s => Some s | _ => None end" % "; ".join(ps)
+
+        def ext(f):
+            return ("some", parse_l(f[0][2:])) if f[0].startswith("f:") else ("none", None)
+        return [("serialize_pairs", term, ext)]
+    if prop == "C19" and w[0] == "parse" and len(w) == 3:
+        b, q = coq_list(parse_l(w[1])), coq_list(parse_l(w[2]))
+        kind = ("Some [match parse %s with Ok None => 0 | Ok (Some m) => match display m with Ok _ => 1 | Panic _ => 4 | OutOfFuel => 5 end "
+                "| Panic _ => 2 | OutOfFuel => 3 end]%%N" % b)
+
+        def extk(f):
+            if f[0] == "~":
+                return ("some", [0])
+            if f[0] == "PANIC":
+                return ("some", [2])
+            if f[0] == "FUEL":
+                return ("some", [3])
+            return ("some", [{"PANIC": 4, "FUEL": 5}.get(f[4], 1)])
+
+        def okf(g):
+            return lambda f: g(f) if f[0] == "ok" else ("none", None)
+
+        def params(x):
+            out = []
+            if x != "_":
+                for nv in x.split(","):
+                    n, v = nv.split("=")
+                    n, v = parse_l(n), parse_l(v)
+                    out += [len(n)] + n + [len(v)] + v
+            return out
+
+        def extm(f):
+            a, c = parse_l(f[1]), parse_l(f[2])
+            return ("some", [len(a)] + a + [len(c)] + c + params(f[3]))
+
+        def extd(f):
+            return ("some", parse_l(f[4])) if f[4] not in ("PANIC", "FUEL") else ("none", None)
+
+        def extg(f):
+            return ("none", None) if f[5] == "~" else ("some", parse_l(f[5]))
+        return [("parse-kind", kind, extk),
+                ("parse", "match parse %s with Ok (Some m) => Some (flat_mime m) | _ => None end" % b, okf(extm)),
+                ("display", "match parse %s with Ok (Some m) => match display m with Ok d => Some d | _ => None end | _ => None end" % b, okf(extd)),
+                ("get_parameter", "match parse %s with Ok (Some m) => get_parameter (m_params m) %s | _ => None end" % (b, q), okf(extg))]
     if prop == "C18" and w[0] == "dec" and len(w) == 2:
         b = coq_list(parse_l(w[1]))
 
@@ -174,6 +288,9 @@ def main():
     p = subprocess.run([exe], input="\n".join(r for r, _ in jobs) + "\n", stdout=subprocess.PIPE, stderr=subprocess.STDOUT,
                        universal_newlines=True, timeout=600)
     answers = [l[2:] for l in p.stdout.split("\n") if l.startswith("R ")]
+    if os.environ.get("VMROUTE_SELFTEST") and answers:
+        # self-test of the comparison: the first answer is replaced by the last one; the run must then report a difference
+        answers[0] = answers[-1] if answers[-1] != answers[0] else answers[0] + ".1"
     if len(answers) != len(jobs):
         print("vmroute: driver answered %d of %d requests" % (len(answers), len(jobs)))
         return 2
@@ -207,7 +324,10 @@ def main():
     for (r, ts), a in zip(jobs, answers):
         fields = a.split(" ")
         for (lab, term, ext) in ts:
-            want = ext(fields)
+            try:
+                want = ext(fields)
+            except (IndexError, ValueError):
+                want = ("unreadable", a)
             if got.get(k) != want:
                 bad += 1
                 if bad <= 5:
